@@ -153,6 +153,11 @@ func (w *World) doInject(i int, s *Step, n *Node, res *StepResult) {
 func (w *World) streamCorruption(kind string, cur *pb.Vertex, seen []*pb.Vertex) []*pb.Vertex {
 	adv := w.adversary()
 	switch kind {
+	case "malformed":
+		if w.streamBad != nil {
+			return []*pb.Vertex{w.streamBad}
+		}
+		return nil
 	case "dup-vertex":
 		cp := &pb.Vertex{}
 		roundTrip(cur, cp)
